@@ -190,7 +190,7 @@ def run(ctx):
         okund = any(a[0] == 'bin' and a[1] == '==' and a[3] == UNDEF and 'recvbuf' in repr(a[2]) and t is False for a, t in dom)
     ctx.check(okund, 'R3', 'split: a rank whose colour is MPI_UNDEFINED starts no group', where(sp), '', key='R3|split|undefined colour')
 
-    ctx.rule('R4', 'Group::compare: IDENT iff same size and same rank for every member, UNEQUAL if a member is missing or sizes differ, SIMILAR otherwise', 1)
+    ctx.rule('R4', 'Group::compare: IDENT iff same size and same rank for every member, UNEQUAL if a member is missing or sizes differ, SIMILAR otherwise', 2)
     cp = P.fn(G + '::compare')
     v = A.view(cp)
     outcomes = set()
@@ -214,5 +214,35 @@ def run(ctx):
         outcomes.add((want, final))
     bad = [o for o in outcomes if o[0] != o[1]]
     ctx.check(not bad and len(outcomes) >= 3, 'R4', 'Group::compare outcome on every path', where(cp), 'expected/actual pairs %s' % sorted(outcomes), key='R4|compare|outcome')
+    # SIMILAR is provisional: a later member may still be missing.  The scan may be left before its end only with the absorbing answer UNEQUAL.
+    from .. import cg as _cg
+    heads = v.loop_heads()
+    early = set()
+    if len(heads) == 1:
+        hid = heads[0]['id']
+        body = _cg.natural_loop(v, hid)
+        ss = v.blocks[hid]['s']
+        ap = v.cond_atom(hid)
+        for p in v.paths(max_visits=2):
+            if p.exit in ('noreturn', 'cut'):
+                continue
+            hsteps = [st for st in p.steps if st[0] == 'b' and st[1] == hid]
+            if not hsteps:
+                continue
+            # polarity of the edge that enters the body
+            enter_pol = None
+            for i_, tgt in enumerate(ss):
+                if tgt in body and ap is not None:
+                    enter_pol = ((i_ == 0) == ap[1])
+            if enter_pol is None or hsteps[-1][2] != enter_pol:
+                continue            # the scan was left through its own end test
+            evs = v.path_events(p)
+            res = [e.rhs for e in evs if e.kind == 'assign' and e.lhs[0] == 'var' and e.lhs[2] == 'result' and e.rhs[0] == 'int']
+            early.add(res[-1][1] if res else None)
+        ctx.check(early <= {2}, 'R4', 'Group::compare leaves the scan before its end only with MPI_UNEQUAL', where(cp),
+                  'the scan is left early with result %s: the remaining members are never looked up, so a missing one is not seen (MPI_SIMILAR returned for unequal groups)' % sorted([x for x in early if x != 2], key=repr) if not early <= {2} else 'early exits carry %s' % sorted(early, key=repr),
+                  key='R4|compare|early exit')
+    else:
+        ctx.unrecognised('R4', 'Group::compare: %d loops' % len(heads))
     ctx.assume('MPI_UNDEFINED is the literal -333 of smpi.h; message isolation between communicators is the communicator atom of C28-R1')
     return EXPLANATION
